@@ -172,21 +172,25 @@ class Engine:
                         continue   # open() on an open source: unspecified
                     if name == "open":
                         if m["ever_closed"] and kind == "stdin":
-                            # a reopened stdin source is not judged (the
-                            # statement is silent, read-ahead makes it
-                            # fuzzy) - but closing one source must not make
-                            # standard input unreadable for a NEW source
-                            try:
-                                s2 = StdinAudioSource(sr, sw, ch)
-                                s2.open()
-                                r2 = call(lambda: s2.read(1))
-                            except Exception as e2:
-                                r2 = ("exc", e2)
-                            if r2[0] == "exc":
-                                return V("C11.1", "after a standard-input "
-                                         "source was closed, a new one cannot "
-                                         "read: %r" % (r2[1],),
-                                         "C11.1:stdin_unusable_after_close")
+                            # what a reopened stdin source returns is not
+                            # judged (the statement is silent on where the
+                            # stream stands, read-ahead makes it fuzzy) - but
+                            # "reads on an open source" must not raise: if
+                            # the SAME source opens again and reports itself
+                            # open, a read must work
+                            r2 = call(s.open)
+                            opened = r2[0] == "ok"
+                            if opened and hasattr(s, "is_open"):
+                                r3 = call(s.is_open)
+                                opened = r3[0] == "ok" and bool(r3[1])
+                            if opened:
+                                r2 = call(lambda: s.read(1))
+                                if r2[0] == "exc":
+                                    return V("C11.1", "standard-input source "
+                                             "closed, opened again (is_open() "
+                                             "true): read raises %r" % (
+                                                 r2[1],),
+                                             "C11.1:stdin_unusable_after_close")
                             m["live"] = False
                             continue
                         if m["ever_closed"] and kind in ("raw", "wav"):
@@ -465,7 +469,9 @@ class Engine:
 def _harness_exc(e):
     """An AttributeError / TypeError / NotImplementedError raised from inside
     the simulated stdin objects is a gap of the harness, not a verdict."""
-    if not isinstance(e, (AttributeError, NotImplementedError)):
+    import io as _io
+    if not isinstance(e, (AttributeError, NotImplementedError,
+                          _io.UnsupportedOperation)):
         return False
     tb = e.__traceback__
     last = None
@@ -473,7 +479,8 @@ def _harness_exc(e):
         last = tb
         tb = tb.tb_next
     fn = last.tb_frame.f_code.co_filename if last is not None else ""
-    return "/simkit/" in fn or "SimPipe" in str(e) or "FakeStdin" in str(e)
+    return ("/simkit/" in fn or "SimPipe" in str(e) or "FakeStdin" in str(e)
+            or "simulated stdin" in str(e))
 
 
 def _short(b):
